@@ -156,6 +156,14 @@ impl GenerationPass for AvailableValuePass {
                 if node.calls_to().is_some() {
                     killed |= Register::return_addr_set();
                 }
+                // An environment call puts its results into registers: the
+                // ones of its signature if the call number is known, else any
+                // register that can carry a result.
+                if node.is_ecall() {
+                    killed |= node
+                        .known_ecall_signature()
+                        .map_or_else(Register::return_set, |(_, results)| results);
+                }
                 out_reg_n -= killed.iter();
                 // A value written in terms of a register that this node
                 // overwrites no longer holds.
